@@ -100,6 +100,8 @@ bool sameFile(const char* a, const char* b) { struct stat x, y; return ::stat(a,
 
 // fault decision for one call site: returns 0 (none), 1 (error), 2 (short count where applicable, else error)
 uint64_t faultCount() { return nfaults; }
+size_t openDirCount() { return dirs.size(); }
+size_t openFileCount() { return fileFds.size(); }
 const std::string& faultedCalls() { return faultedNames; }
 int rRmdir(const char* a) { return ::rmdir(a); }
 static const char* lastCall = ""; static bool lastFaulted = false;
